@@ -84,6 +84,8 @@ Definition L_rtc_dial := inline_all [("rtc_dial_inner", L_rtc_dial_inner)] (cl f
 Definition L_ws_serve := cl fn_ws_serve ws_serve.
 Definition L_ws_netaccept := cl fn_ws_netaccept ws_netaccept.
 
+Definition L_swarm_addlisten := cl fn_swarm_addlisten swarm_addlisten.
+
 Definition st_conn := mkSt Held Held Absent Absent 0 false None None [] false.   (* raw conn + scope given *)
 Definition st_raw := mkSt Held Absent Absent Absent 0 false None None [] false.    (* raw conn given, scope is the caller's *)
 Definition st_stream := mkSt Absent Absent Held Held 0 false None None [] false.
@@ -120,7 +122,8 @@ Definition entries : list (string * bool * st * list (list aev)) :=
    ("webrtc listener.listen candidate goroutine", false, st0, L_rtc_listen_go);
    ("webrtc WebRTCTransport.Dial", true, st0, L_rtc_dial);
    ("websocket listener.ServeHTTP", false, st0, L_ws_serve);
-   ("websocket httpNetListener.Accept", true, st0, L_ws_netaccept)].
+   ("websocket httpNetListener.Accept", true, st0, L_ws_netaccept);
+   ("Swarm.AddListenAddr", true, st0, L_swarm_addlisten)].
 
 Definition entry_ok (e : string * bool * st * list (list aev)) : bool :=
   let '(_, vr, init, ps) := e in forallb (path_ok vr init) ps.
